@@ -75,6 +75,10 @@ def main():
         log.append("stream %s ok=%s evals=%d cached=%s %.1fs" % (stream, r["ok"], r["evaluations"], r.get("cached"), r.get("wall_s", 0)))
         if r.get("build_error"):
             broken.append(("correspondence", stream, r["build_error"]))
+            if r.get("hang"):
+                # a call that never returns is a concrete failing input for every
+                # property of the call's result
+                failing.append({"desc": "%s: %s" % (pid, r["build_error"])})
             continue
         evaluations += r["evaluations"]
         for prof, m in r["meta"].items():
